@@ -145,18 +145,67 @@ V("C07-tombstone-skips-lock-check-for-children","C07",MB+"put.go","""		if object
 			return apistatus.ErrObjectLocked
 		}
 """,rule="C07.R1")
-V("C07-lock-of-tombstoned-accepted","C07",MB+"put.go","""		if st == statusTombstoned {
+V("C07-lock-of-tombstoned-accepted","C07",MB+"put.go","""		if st == statusTombstoned || st == statusExpired && inGarbage(metaCursor, target) == statusTombstoned {
 			return logicerr.Wrap(apistatus.ErrObjectAlreadyRemoved)
 		}
-""","""		if st == statusTombstoned && targetTypErr == nil {
+""","""		if (st == statusTombstoned || st == statusExpired && inGarbage(metaCursor, target) == statusTombstoned) && targetTypErr == nil {
 			return logicerr.Wrap(apistatus.ErrObjectAlreadyRemoved)
 		}
 """,rule="C07.R1")
 V("C07-lock-target-tombstonable","C07",MB+"put.go","			if targetTyp == object.TypeLock {\n				return ErrLockObjectRemoval\n			}","			if targetTyp == object.TypeLock && currEpoch == 0 {\n				return ErrLockObjectRemoval\n			}",rule="C07.R1")
 V("C07-status-garbage-ignores-lock","C07",MB+"exists.go","	if garbageStatus != statusAvailable && objectLocked(currEpoch, metaCursor, oID) {","	if garbageStatus == statusTombstoned && objectLocked(currEpoch, metaCursor, oID) {",rule="C07.R2")
 V("C07-iterate-expired-yields-locked","C07",MB+"iterators.go","			if objectLocked(curEpoch, curForLocked, id) {\n				expKey, _ = cur.Next()\n				continue\n			}","			if objectLocked(curEpoch, curForLocked, id) && expEpoch+1 == curEpoch {\n				expKey, _ = cur.Next()\n				continue\n			}",rule="C07.R2")
-V("C07-removed-lock-still-counts","C07",MB+"lock.go","	return inGarbage(metaCursor, lockID) == statusAvailable","	return inGarbage(metaCursor, lockID) != statusTombstoned",rule="C07.R5")
-V("C07-expired-lock-ends-search","C07",MB+"lock.go","			if currEpoch > 0 && isExpired(cur, associateID, currEpoch) {\n				continue\n			}","			if currEpoch > 0 && isExpired(cur, associateID, currEpoch) {\n				break\n			}",rule="C07.R5")
+V("C07-removed-lock-still-counts","C07",MB+"lock.go","		if inGarbage(cur, lockID) == statusAvailable {","		if inGarbage(cur, lockID) != statusTombstoned {",rule="C07.R5")
+V("C07-expired-lock-ends-search","C07",MB+"lock.go","		if currEpoch > 0 && isExpired(cur, lockID, currEpoch) {\n			continue\n		}","		if currEpoch > 0 && isExpired(cur, lockID, currEpoch) {\n			break\n		}",rule="C07.R5")
+V("C07-generic-lookup-dead-expiry-branch","C07",MB+"lock.go","			if currEpoch > 0 && isExpired(cur, associateID, currEpoch) {\n				continue\n			}","			if currEpoch > 0 && isExpired(cur, associateID, currEpoch) {\n				break\n			}",expect="silent")
+V("C07-lock-of-other-type-counts","C07",MB+"lock.go","		if !isObjectType(cur, lockID, object.TypeLock) {\n			continue\n		}\n","",rule="C07.R5")
+V("C07-revert-fix-first-lock-only","C07",MB+"lock.go","""	for lockID := range iterAttrVal(metaCursor, object.AttributeAssociatedObject, idObj[:]) {
+		var cur = metaCursor.Bucket().Cursor()
+
+		if !isObjectType(cur, lockID, object.TypeLock) {
+			continue
+		}
+		if currEpoch > 0 && isExpired(cur, lockID, currEpoch) {
+			continue
+		}
+		if inGarbage(cur, lockID) == statusAvailable {
+			return true
+		}
+	}
+
+	return false
+}""","""	locked, lockID := associatedWithTypedObject(currEpoch, metaCursor, idObj, object.TypeLock)
+	if !locked {
+		return false
+	}
+	return inGarbage(metaCursor, lockID) == statusAvailable
+}""",rule="C07.R5")
+V("C08-revert-fix-first-lock-only","C08",MB+"lock.go","""	for lockID := range iterAttrVal(metaCursor, object.AttributeAssociatedObject, idObj[:]) {
+		var cur = metaCursor.Bucket().Cursor()
+
+		if !isObjectType(cur, lockID, object.TypeLock) {
+			continue
+		}
+		if currEpoch > 0 && isExpired(cur, lockID, currEpoch) {
+			continue
+		}
+		if inGarbage(cur, lockID) == statusAvailable {
+			return true
+		}
+	}
+
+	return false
+}""","""	locked, lockID := associatedWithTypedObject(currEpoch, metaCursor, idObj, object.TypeLock)
+	if !locked {
+		return false
+	}
+	return inGarbage(metaCursor, lockID) == statusAvailable
+}""",rule="C08.R5")
+V("C01-lock-walk-one-cursor","C01",MB+"lock.go","""	for lockID := range iterAttrVal(metaCursor, object.AttributeAssociatedObject, idObj[:]) {
+		var cur = metaCursor.Bucket().Cursor()
+""","""	var cur = metaCursor.Bucket().Cursor()
+	for lockID := range iterAttrVal(metaCursor, object.AttributeAssociatedObject, idObj[:]) {
+""",expect="silent")
 V("C07-engine-deletes-locked","C07","pkg/local_object_storage/engine/inhume.go","		} else if locked {\n			e.log.Warn(\"skip an expired object with lock\",\n				zap.Stringer(\"addr\", addr))\n			continue\n		}","		} else if locked {\n			e.log.Warn(\"skip an expired object with lock\",\n				zap.Stringer(\"addr\", addr))\n		}",rule="C07.R3")
 V("C07-gc-deletes-expired-regular","C07","pkg/local_object_storage/shard/gc.go","		switch typ {\n		case object.TypeTombstone:","		switch typ {\n		case object.TypeTombstone, object.TypeLink:",rule="C07.R4")
 
@@ -334,10 +383,10 @@ V("C01-silent-exists-if-chain","C01",MB+"exists.go","""	switch objectStatus(meta
 		return false, ErrObjectIsExpired
 	}
 """,expect="silent")
-V("C06-list-no-garbage-check","C06",MB+"list.go","""		if inGarbage(mCursor, obj) != statusAvailable {
+V("C06-list-no-garbage-check","C06",MB+"list.go","""		if inGarbage(mCursor, obj) != statusAvailable && !objectLocked(currEpoch, mCursor, obj) {
 			continue
 		}
-""","""		if inGarbage(mCursor, obj) == statusTombstoned {
+""","""		if inGarbage(mCursor, obj) == statusTombstoned && !objectLocked(currEpoch, mCursor, obj) {
 			continue
 		}
 """,rule="C06.R1")
@@ -347,10 +396,11 @@ V("C06-list-dead-container","C06",MB+"list.go","""	if containerMarkedGC(c) {
 
 	fillIDTypePrefix(typePrefix)""","""	fillIDTypePrefix(typePrefix)""",rule="C06.R1")
 V("C06-cursor-after-skip","C06",MB+"list.go","""		cursor.lastObjectID = obj
-		if inGarbage(mCursor, obj) != statusAvailable {
+		// a locked object stays available whatever marks it has, see objectStatusDirect
+		if inGarbage(mCursor, obj) != statusAvailable && !objectLocked(currEpoch, mCursor, obj) {
 			continue
 		}
-""","""		if inGarbage(mCursor, obj) != statusAvailable {
+""","""		if inGarbage(mCursor, obj) != statusAvailable && !objectLocked(currEpoch, mCursor, obj) {
 			continue
 		}
 		cursor.lastObjectID = obj
@@ -741,10 +791,10 @@ V("C19-drained-shard-deleted-from","C19",EN+"evacuate.go","""					if err == nil 
 						e.log.Debug("object is moved to another shard",""","""					if err == nil {
 						_ = sh.Delete(addr.Container(), []oid.ID{addr.Object()})
 						e.log.Debug("object is moved to another shard",""",rule="C19.R1")
-V("C19-not-readonly-allowed","C19",EN+"evacuate.go","""		if !sh.GetMode().ReadOnly() {
+V("C19-not-readonly-allowed","C19",EN+"evacuate.go","""		if !m.ReadOnly() {
 			e.mtx.RUnlock()
 			return 0, shard.ErrMustBeReadOnly
-		}""","""		if !sh.GetMode().ReadOnly() && ignoreErrors {
+		}""","""		if !m.ReadOnly() && ignoreErrors {
 			e.mtx.RUnlock()
 			return 0, shard.ErrMustBeReadOnly
 		}""",rule="C19.R4")
@@ -1423,3 +1473,151 @@ V("C19-degraded-listing-error-is-done","C19","pkg/local_object_storage/engine/ev
 				}""",rule="C19.R7")
 V("C19-listing-ignores-live-lock","C19","pkg/local_object_storage/metabase/list.go","""		if inGarbage(mCursor, obj) != statusAvailable && !objectLocked(currEpoch, mCursor, obj) {""","""		if inGarbage(mCursor, obj) != statusAvailable {
 			_ = currEpoch""",rule="C19.R6")
+
+# ---- rules added after the third seeding round, batch B
+MB="pkg/local_object_storage/metabase/"; FT="pkg/local_object_storage/blobstor/fstree/"; SH="pkg/local_object_storage/shard/"; WC="pkg/local_object_storage/writecache/"; PU="pkg/services/object/put/"
+V("C06-removal-of-unknown-container-forgotten","C06",MB+"inhume.go","""		metaBkt, err := tx.CreateBucketIfNotExists(metaBucketKey(cID))
+		if err != nil {
+			return fmt.Errorf("create meta bucket: %w", err)
+		}
+""","""		metaBkt, err := tx.CreateBucketIfNotExists(metaBucketKey(cID))
+		if err != nil {
+			return fmt.Errorf("create meta bucket: %w", err)
+		}
+		if metaBkt.Stats().KeyN == 0 {
+			return nil
+		}
+""",rule="C06.R5")
+V("C06-removal-mark-error-ignored","C06",MB+"inhume.go","""		if err := metaBkt.Put(containerGCMarkKey, nil); err != nil {
+			return fmt.Errorf("write container GC mark: %w", err)
+		}
+""","""		_ = metaBkt.Put(containerGCMarkKey, nil)
+""",rule="C06.R5")
+V("C11-decoder-reads-callers-buffer","C11",FT+"head.go","bytes.NewReader(slices.Clone(initial))","bytes.NewReader(initial)",rule="C11.R7",more=[{"file":FT+"head.go","old":'	"slices"\n',"new":""}])
+V("C11-decoder-input-cloned-otherwise","C11",FT+"head.go","bytes.NewReader(slices.Clone(initial))","bytes.NewReader(bytes.Clone(initial))",expect="silent",more=[{"file":FT+"head.go","old":'	"slices"\n',"new":""}])
+V("C12-put-clears-final-path-first","C12",FT+"fstree.go","""	err := t.writer.writeData(addr.Object(), p, data)""","""	_ = os.Remove(p)
+	err := t.writer.writeData(addr.Object(), p, data)""",rule="C12.R5")
+V("C14-switch-goes-on-after-failure","C14",SH+"mode.go","""	for i := range components {
+		if err := components[i](m); err != nil {
+			return err
+		}
+	}
+""","""	var firstErr error
+	for i := range components {
+		if err := components[i](m); err != nil && firstErr == nil {
+			firstErr = err
+		}
+	}
+	if firstErr != nil {
+		return firstErr
+	}
+""",rule="C14.R4")
+V("C14-switch-order-inverted","C14",SH+"mode.go","	if m != mode.ReadWrite {\n		if s.hasWriteCache() {","	if m == mode.ReadWrite {\n		if s.hasWriteCache() {",rule="C14.R4")
+V("C14-switch-loop-by-value","C14",SH+"mode.go","""	for i := range components {
+		if err := components[i](m); err != nil {
+			return err
+		}
+	}
+""","""	for _, set := range components {
+		err := set(m)
+		if err != nil {
+			return err
+		}
+	}
+""",expect="silent")
+V("C17-cache-tree-combines-two","C17",WC+"storage.go","fstree.WithCombinedCountLimit(1))","fstree.WithCombinedCountLimit(2))",rule="C17.R6")
+V("C17-cache-tree-default-combining","C17",WC+"storage.go","		fstree.WithNoSync(c.noSync),\n		fstree.WithCombinedCountLimit(1))","		fstree.WithNoSync(c.noSync))",rule="C17.R6")
+V("C17-cache-tree-limit-zero","C17",WC+"storage.go","fstree.WithCombinedCountLimit(1))","fstree.WithCombinedCountLimit(0))",expect="silent")
+V("C25-local-refusal-counts-as-copy","C25",PU+"local.go","""	if err := storage.Put(ctx, obj, objBin); err != nil {
+		return fmt.Errorf("could not put object to local storage: %w", err)
+	}
+""","""	if err := storage.Put(ctx, obj, objBin); err != nil && !errors.Is(err, context.Canceled) {
+		return fmt.Errorf("could not put object to local storage: %w", err)
+	}
+""",rule="C25.R8")
+V("C25-local-put-error-in-variable","C25",PU+"local.go","""	if err := storage.Put(ctx, obj, objBin); err != nil {
+		return fmt.Errorf("could not put object to local storage: %w", err)
+	}
+
+	return nil""","""	err := storage.Put(ctx, obj, objBin)
+	if err == nil {
+		return nil
+	}
+
+	return fmt.Errorf("could not put object to local storage: %w", err)""",expect="silent")
+V("C07-revert-fix-lock-of-expired-tombstoned","C07",MB+"put.go","		if st == statusTombstoned || st == statusExpired && inGarbage(metaCursor, target) == statusTombstoned {","		if st == statusTombstoned {",rule="C07.R1")
+V("C07-lock-admission-tombstone-first","C07",MB+"put.go","		if st == statusTombstoned || st == statusExpired && inGarbage(metaCursor, target) == statusTombstoned {","		if st == statusTombstoned || inGarbage(metaCursor, target) == statusTombstoned {",expect="silent")
+EN="pkg/local_object_storage/engine/"
+V("C07-revert-fix-lock-walk-stops-at-error","C07",EN+"inhume.go","""			// other shards can still know about a lock
+			if firstErr == nil {
+				firstErr = err
+			}
+			continue
+""","""			return false, err
+""",rule="C07.R6",more=[{"file":EN+"inhume.go","old":"	var firstErr error\n\n	for _, sh := range e.unsortedShards() {\n		locked, err := sh.IsLocked(addr)","new":"	var firstErr error\n	_ = firstErr\n\n	for _, sh := range e.unsortedShards() {\n		locked, err := sh.IsLocked(addr)"}])
+V("C08-revert-fix-lock-walk-stops-at-error","C08",EN+"inhume.go","""			// other shards can still know about a lock
+			if firstErr == nil {
+				firstErr = err
+			}
+			continue
+""","""			return false, err
+""",rule="C08.R6",more=[{"file":EN+"inhume.go","old":"	var firstErr error\n\n	for _, sh := range e.unsortedShards() {\n		locked, err := sh.IsLocked(addr)","new":"	var firstErr error\n	_ = firstErr\n\n	for _, sh := range e.unsortedShards() {\n		locked, err := sh.IsLocked(addr)"}])
+V("C07-lock-walk-joins-errors","C07",EN+"inhume.go","""			if firstErr == nil {
+				firstErr = err
+			}
+			continue
+""","""			firstErr = errors.Join(firstErr, err)
+			continue
+""",expect="silent")
+V("C14-revert-fix-configured-mode-not-applied","C14",SH+"control.go","""	if m := s.GetMode(); m != mode.ReadWrite {
+		if err := s.SetMode(m); err != nil {
+			return fmt.Errorf("could not set configured mode %s: %w", m, err)
+		}
+	}
+
+	return nil""","""	return nil""",rule="C14.R5")
+V("C14-revert-fix-cache-flushes-during-init","C14",SH+"control.go","""		if s.GetMode() == mode.ReadOnly {
+			// every component is opened for writing, but a shard that is
+			// configured as read-only must not start flushing its cache
+			// while the rest is being initialized
+			if err := s.writeCache.SetMode(mode.ReadOnly); err != nil {
+				return fmt.Errorf("could not set %T mode: %w", s.writeCache, err)
+			}
+		}
+""","",rule="C14.R5")
+V("C14-configured-mode-error-ignored","C14",SH+"control.go","""		if err := s.SetMode(m); err != nil {
+			return fmt.Errorf("could not set configured mode %s: %w", m, err)
+		}
+""","""		_ = s.SetMode(m)
+""",rule="C14.R5")
+V("C14-configured-mode-applied-eq-form","C14",SH+"control.go","""	if m := s.GetMode(); m != mode.ReadWrite {
+		if err := s.SetMode(m); err != nil {
+			return fmt.Errorf("could not set configured mode %s: %w", m, err)
+		}
+	}
+
+	return nil""","""	m := s.GetMode()
+	if m == mode.ReadWrite {
+		return nil
+	}
+	if err := s.SetMode(m); err != nil {
+		return fmt.Errorf("could not set configured mode %s: %w", m, err)
+	}
+
+	return nil""",expect="silent")
+CM="pkg/local_object_storage/blobstor/common/storage.go"
+V("C11-revert-fix-from-zero-of-empty","C11",CM,"		if r.First != 0 && r.First >= payloadLen {","		if r.First >= payloadLen {",rule="C11.R8")
+V("C11-zero-pair-refused-on-empty","C11",CM,"""			if off != 0 {
+				return 0, 0, apistatus.ErrObjectOutOfRange
+			}
+			ln = payloadLen""","""			if off != 0 || payloadLen == 0 {
+				return 0, 0, apistatus.ErrObjectOutOfRange
+			}
+			ln = payloadLen""",rule="C11.R8")
+V("C11-from-zero-nested-form","C11",CM,"""		if r.First != 0 && r.First >= payloadLen {
+			return 0, 0, apistatus.ErrObjectOutOfRange
+		}""","""		if r.First != 0 {
+			if r.First >= payloadLen {
+				return 0, 0, apistatus.ErrObjectOutOfRange
+			}
+		}""",expect="silent")
